@@ -461,8 +461,8 @@ class HierarchicalMachine(Machine):
         models = [self if mod is self.self_literal else mod for mod in listify(model)]
         super(HierarchicalMachine, self).add_model(models, initial=initial)
         initial_name = getattr(models[0], self.model_attribute)
-        if hasattr(initial_name, 'name'):
-            initial_name = initial_name.name
+        if isinstance(initial_name, Enum):
+            initial_name = self.state_cls.separator.join(self._get_enum_path(initial_name))
         # initial states set by add_model or machine might contain initial states themselves.
         if isinstance(initial_name, string_types):
             initial_states = self._resolve_initial(models, initial_name.split(self.state_cls.separator))
